@@ -11,15 +11,21 @@ def one_run(job):
     os.environ["CYLC_FLOW_VERIF"] = "1"
     from . import driver, scenarios
     seed = job["seed"]
-    rng = random.Random(seed)
-    home = tempfile.mkdtemp(prefix=f"run{seed}-", dir=job["scratch"])
-    try:
-        sc = scenarios.SCENARIOS[job.get("scenario", "plain")]
-        return sc(job, rng, home)
-    except Exception as exc:
-        return {"seed": seed, "error": "".join(traceback.format_exception(exc))[-3000:]}
-    finally:
-        shutil.rmtree(home, ignore_errors=True)
+    for attempt in range(3):
+        rng = random.Random(seed)
+        home = tempfile.mkdtemp(prefix=f"run{seed}-", dir=job["scratch"])
+        try:
+            sc = scenarios.SCENARIOS[job.get("scenario", "plain")]
+            return sc(job, rng, home)
+        except Exception as exc:
+            text = "".join(traceback.format_exception(exc))
+            if "BrokenBarrierError" in text and attempt < 2:
+                # the scheduler's network-server thread did not come up within cylc's own 10 s start-up
+                # timeout (overloaded machine): not a verdict about anything, run the same case again
+                continue
+            return {"seed": seed, "error": text[-3000:]}
+        finally:
+            shutil.rmtree(home, ignore_errors=True)
 
 def validate(runs: list, scratch: str, *, chunk=12, procs=16, timeout=900):
     """runs: [{'w_tla':..., 'events': [...], 'opt': {...}}].  Returns list of verdicts
